@@ -35,7 +35,7 @@ def plan(tier, seed):
     q = tier == "quick"
     n = 12 if q else 32
     specs = [{"kind": "exh", "i": i, "n": n, "max_obj": 3 if q else 4, "max_sp": 3, "lab_exh": not q} for i in range(n)]
-    specs += [{"kind": "rand", "i": i, "count": 100 if q else 400, "max_obj": 5, "max_sp": 5, "max_fam": 4} for i in range(12 if q else 16)]
+    specs += [{"kind": "rand", "i": i, "count": 220 if q else 500, "max_obj": 5, "max_sp": 5, "max_fam": 4} for i in range(12 if q else 16)]
     specs += [{"kind": "cli", "i": i, "count": 4 if q else 10} for i in range(7 if q else 14)]
     return specs
 
@@ -109,6 +109,9 @@ def random_ordered_labelling(rng, B, root_order):
     for v in reversed(G.nodes):
         need[v] = set(B.syn[v]) if not G.children[v] else set().union(*(need[c] for c in G.children[v]))
     lab = {}
+    # how readily an ancestor keeps a family none of its leaves has: never (every loss as high as possible, long lost
+    # blocks at inner nodes), half of the time, almost always (losses pushed down to the leaves)
+    pk = rng.choice([0.5, 0.5, 0.0, 0.9])
     for v in G.nodes:
         if not G.children[v]:
             lab[v] = tuple(B.syn[v])
@@ -116,10 +119,47 @@ def random_ordered_labelling(rng, B, root_order):
             lab[v] = tuple(root_order)
         else:
             par = set(lab[G.parent[v]])
-            extra = [f for f in par - need[v] if rng.random() < 0.5]
+            extra = [f for f in par - need[v] if rng.random() < pk]
             keep = need[v] | set(extra)
             lab[v] = tuple(f for f in root_order if f in keep)
     return lab
+
+
+def block_syntenies(rng, Gn, syn, nf):
+    """A whole clade lacks a block of 8 or more consecutive families of the common order, and part of that clade also
+    lacks the two families flanking the block (one lost run for the child, across a gap its parent already has)."""
+
+    def leaves(x):
+        return [x] if isinstance(x, str) else [l for c in x for l in leaves(c)]
+
+    def inner(x, out):
+        if not isinstance(x, str):
+            out.append(x)
+            for c in x:
+                inner(c, out)
+        return out
+
+    order = sorted({f for fs in syn.values() for f in fs}, key=lambda f: (len(f), f))
+    if len(order) < 10:
+        return syn
+    nodes = inner(Gn, [])
+    u = rng.choice(nodes[1:] or nodes)
+    L = rng.randint(8, len(order) - 2)
+    a = rng.randint(1, len(order) - L - 1)
+    block = set(order[a:a + L])
+    flanks = {order[a - 1], order[a + L]}
+    w = rng.choice(list(u))
+    out = {}
+    for g, fs in syn.items():
+        keep = [f for f in order if f in set(fs) or rng.random() < 0.7]
+        if g in leaves(u):
+            keep = [f for f in keep if f not in block]
+            if g in leaves(w):
+                keep = [f for f in keep if f not in flanks]
+            elif rng.random() < 0.8:
+                keep = [f for f in order if f in set(keep) | flanks]
+        out[g] = keep or [order[0]]
+    return out
 
 
 def all_ordered_labellings(B, root_order):
@@ -323,6 +363,9 @@ def run(ctx, spec):
                 # masks wider than a byte / a machine word boundary; the evaluator alone is exercised
                 nf = rng.choice([10, 12, 16, 20])
                 ordered_syn = gen.random_syntenies(rng, list(lm), nf, ordered=True, consistent_p=1.0, min_fam=nf)
+                if rng.random() < 0.5 and not isinstance(Gn, str):
+                    ordered_syn = block_syntenies(rng, Gn, ordered_syn, nf)
+                    ctx.count("block_loss_cases")
                 ctx.count("wide_synteny_cases")
             else:
                 ordered_syn = gen.random_syntenies(rng, list(lm), spec["max_fam"], ordered=True, consistent_p=1.0)
